@@ -41,8 +41,8 @@ gen_c03()
 {
 	using namespace rc;
 	std::ostringstream t;
-	int mode = *pbt::welem<int>({{3, 0}, {3, 1}, {2, 2}});
-	t << "cfg " << *pbt::range<int>(1, 1000000) << " " << mode << " " << *gen::element(10, 30, 60) << " " << *pbt::range<int>(0, 3) << " 400 0\n";
+	int mode = *pbt::welem<int>({{3, 0}, {3, 1}, {2, 2}, {2, 3}});
+	t << "cfg " << *pbt::range<int>(1, 1000000) << " " << mode << " " << (mode == 3 ? *gen::element(5, 20, 50) : *gen::element(10, 30, 60)) << " " << *pbt::range<int>(0, 3) << " " << (mode == 3 ? *gen::element(60, 150, 400) : 400) << " 0\n";
 	t << api::gen_program();
 	return t.str();
 }
